@@ -206,13 +206,14 @@ structure Vis where
 def consVis (σ : Scope) (cons : List Expr) : List Vis := cons.map (fun c => ⟨σ, c, true⟩)
 def needVis (σ : Scope) (es : List Expr) : List Vis := es.map (fun e => ⟨σ, e, false⟩)
 
+def evalPair (σ : Scope) (ke : String × Expr) : Option (String × Rat) :=
+  match σ.eval ke.2 with
+  | .ok v => some (ke.1, v)
+  | .error _ => none
+
 /-- the plain dictionary of eagerly mapped values (`map_parameter_values`), if every value exists -/
 def mappedDict (pm : List (String × Expr)) (σ : Scope) : Option Scope :=
-  match pm.mapM (fun (ke : String × Expr) => match σ.eval ke.2 with
-      | .ok v => some (ke.1, v)
-      | .error _ => none) with
-  | some kv => some (.dict kv)
-  | none => none
+  (pm.mapM (evalPair σ)).map Scope.dict
 
 def tableExprs (entries : List (Chan × List TEntry)) : List Expr :=
   entries.flatMap (fun ce => ce.2.flatMap (fun e => [e.t, e.v]))
@@ -289,6 +290,14 @@ def checkOne (se : Scope × Expr) : Except Err Unit := do
 
 /-- the judge: the visible constraints validated in visiting order -/
 def consOutcome (l : List (Scope × Expr)) : Except Err Unit := l.forM checkOne
+
+/-- one visible entry in the scope its node sees: it must evaluate, a constraint must moreover be true -/
+def checkVis (v : Vis) : Except Err Unit := do
+  let x ← v.scope.eval v.expr
+  if v.isCons = true ∧ x = 0 then .error .constraintViolation else pure ()
+
+/-- everything the visited nodes must evaluate, in visiting order -/
+def visOutcome (l : List Vis) : Except Err Unit := forM l checkVis
 
 /-- specification (Prop): every visible constraint evaluates true -/
 def AllTrue (l : List (Scope × Expr)) : Prop := ∀ se ∈ l, ∃ v, se.1.eval se.2 = .ok v ∧ v ≠ 0
